@@ -25,6 +25,9 @@ type PayCall struct {
 type PayGenericCase struct {
 	Payloader string    `json:"payloader"`
 	Calls     []PayCall `json:"calls"`
+	// Warm: one-byte frames sent first (MTU 100) to advance a running counter kept by the payloader (VP8/VP9
+	// picture ids: the descriptor grows at id 128, the counter wraps at 32768)
+	Warm int `json:"warm,omitempty"`
 }
 
 var subC08 = register("C08", "payloaders", checkC08)
@@ -132,6 +135,13 @@ func checkC08(r *run, c *PayGenericCase) (CaseInfo, error) {
 	}
 	var history []past
 	retained := false
+	for i := 0; i < c.Warm; i++ {
+		prim.Payload(100, []byte{0x10})
+		twin.Payload(100, []byte{0x10})
+	}
+	if c.Warm > 0 {
+		ci.class("warmed-up")
+	}
 	for i, call := range c.Calls {
 		var in []byte
 		var ar *arena
@@ -317,6 +327,9 @@ func genPayInput(t *rapid.T, payloader string) []byte {
 
 func genPayGenericCase(t *rapid.T) *PayGenericCase {
 	c := &PayGenericCase{Payloader: rapid.SampledFrom(c08Payloaders).Draw(t, "payloader")}
+	if (c.Payloader == "vp8pid" || c.Payloader == "vp9flex" || c.Payloader == "vp9nonflex") && rapid.IntRange(0, 3).Draw(t, "warm") == 0 {
+		c.Warm = rapid.SampledFrom([]int{1, 124, 125, 126, 127, 128, 129, 255, 256, 32765, 32766, 32767, 32768}).Draw(t, "warmn")
+	}
 	ncalls := rapid.IntRange(1, 4).Draw(t, "ncalls")
 	mtu0 := uint16(biased(t, "mtu", 0, 65535, 0, 1, 2, 3, 4, 5, 6, 7, 8, 9, 10, 11, 12, 13, 14, 15, 16, 100, 1200, 65535))
 	for i := 0; i < ncalls; i++ {
@@ -384,7 +397,7 @@ func genPayGenericCase(t *rapid.T) *PayGenericCase {
 	return c
 }
 
-const ruleC08 = "rapid draws a payloader (G711, G722, Opus, H264 +-STAP-A, H265 x {AddDONL} x {SkipAggregation}, VP8 +-picture id, VP9 flexible/non-flexible, AV1) and 1-4 calls on one instance: MTU 0-65535 biased to 0-16/100/1200/65535, input nil, empty, random, or grammar-seeded (Annex-B NAL sequences incl. SPS/PPS/AUD and trailing start codes, OBU streams with extension bytes and lying size fields, VP9 frames with generated headers) optionally mutated, and (one call in 80) inputs of 65534-131072 bytes incl. a jumbo SPS/PPS followed by a slice; inputs sit in an arena with guard bytes and spare capacity. Oracle: no panic, every fragment <= MTU (Opus exempt) and non-empty for non-empty input, arena untouched, and the twin/scribble relation: after each call the input arena is overwritten, fragments returned earlier must not change and every later output must equal that of a twin instance fed pristine copies. Non-trivial = a call returned >=1 fragment; distinct = FNV-64 of the JSON case"
+const ruleC08 = "rapid draws a payloader (G711, G722, Opus, H264 +-STAP-A, H265 x {AddDONL} x {SkipAggregation}, VP8 +-picture id, VP9 flexible/non-flexible, AV1) and 1-4 calls on one instance (VP8 with picture ids and VP9: one case in four first sends 1-32768 one-byte frames so that the running picture id sits at 125-129 or at the 15-bit wrap): MTU 0-65535 biased to 0-16/100/1200/65535, input nil, empty, random, or grammar-seeded (Annex-B NAL sequences incl. SPS/PPS/AUD and trailing start codes, OBU streams with extension bytes and lying size fields, VP9 frames with generated headers) optionally mutated, and (one call in 80) inputs of 65534-131072 bytes incl. a jumbo SPS/PPS followed by a slice; inputs sit in an arena with guard bytes and spare capacity. Oracle: no panic, every fragment <= MTU (Opus exempt) and non-empty for non-empty input, arena untouched, and the twin/scribble relation: after each call the input arena is overwritten, fragments returned earlier must not change and every later output must equal that of a twin instance fed pristine copies. Non-trivial = a call returned >=1 fragment; distinct = FNV-64 of the JSON case"
 
 func TestC08(t *testing.T) {
 	r := begin(t, "C08", "exploration", ruleC08)
